@@ -162,6 +162,9 @@ func VerifNewSim(nBrokers int, topics map[string]int32) *VerifSim {
 	return s
 }
 
+// VerifMsgRetries reads the retry counter a message struct carries (0 once the producer has handed the struct back).
+func VerifMsgRetries(m *ProducerMessage) int { return m.retries }
+
 // AddPartitions grows a topic by n partitions (leaders spread over the brokers): what a partition-count change of a
 // subscribed topic looks like to the client from its next metadata response on.
 func (s *VerifSim) AddPartitions(topic string, n int) {
